@@ -172,7 +172,7 @@ def check_case(spec):
     with sim.workdir() as (cwd, tmp):
         opts = build.make_options(o, dev, output_file="out.h5")
         T = opts.solve_time
-        solver = TDGLSolver(
+        solver = build.make_solver(
             dev, opts,
             applied_vector_potential=build.make_vector_potential(spec["field"], dev, opts.field_units),
             terminal_currents=build.make_currents(spec["currents"]),
